@@ -141,6 +141,11 @@ def gen_cases(pid, rng, tier, kinds):
             if pid == "C12" and kind == "sync":
                 se = [sync_every_op(c) for c in se]
             cases += se
+        if pid in ("C08", "C10", "C04", "C13", "C12", "C03"):
+            hw = [gen.gen_huge_weights_case(rng, kind, 8980 + i) for i in range(10 if tier == "quick" else 80)]
+            if pid in ("C12", "C13") and kind == "sync":
+                hw = [sync_every_op(c) for c in hw]
+            cases += [with_estimates(c) for c in hw] if pid == "C13" else hw
         extra = 4 if tier == "quick" else 30
         if pid in ("C03", "C05", "C06", "C08", "C10", "C11", "C01", "C16"):
             nme = extra // 2 if pid not in ("C05", "C06") else (extra * 8 if kind == "unsync" else extra * 2)
